@@ -424,20 +424,30 @@ func runC11(c *Ctx) {
 				from = di.Block()
 			}
 			pbx := &predBuilder{name: func(v ssa.Value) string {
-				if bb, ok := v.(*ssa.BinOp); ok && (bb.Op == token.NEQ || bb.Op == token.EQL) {
-					if _, isP := loadOfTypeField(bb.X, "sources/env.Source", "Prefix"); isP {
-						if s, ok := constString(bb.Y); ok && s == "" {
-							if bb.Op == token.NEQ {
-								return "prefixSet"
-							}
-							return "!prefixSet"
-						}
-					}
+				bb, ok := v.(*ssa.BinOp)
+				if !ok || (bb.Op != token.NEQ && bb.Op != token.EQL) {
+					return ""
 				}
-				if bb, ok := v.(*ssa.BinOp); ok && bb.Op == token.EQL && sameValue(bb.X, outer.Y) {
-					if s, ok := constString(bb.Y); ok && s == "" {
-						return "tagEmpty" // the empty-tag arm panics
+				// x ==/!= "" with the operands in either order
+				x := bb.X
+				if s, ok := constString(bb.Y); !ok || s != "" {
+					if s2, ok2 := constString(bb.X); !ok2 || s2 != "" {
+						return ""
 					}
+					x = bb.Y
+				}
+				neg := ""
+				if _, isP := loadOfTypeField(x, "sources/env.Source", "Prefix"); isP {
+					if bb.Op == token.EQL {
+						neg = "!"
+					}
+					return neg + "prefixSet"
+				}
+				if sameValue(x, outer.Y) {
+					if bb.Op == token.NEQ {
+						neg = "!"
+					}
+					return neg + "tagEmpty" // the empty-tag arm panics
 				}
 				return ""
 			}}
